@@ -102,8 +102,13 @@ class Data(Entity):
             if n_values < self.values.shape[0]:
                 kwargs.update({"values": self.values[mask]})
             else:
-                values = np.ones_like(self.values) * self.nan_value
+                if isinstance(self.nan_value, str):
+                    values = np.full(self.values.shape, self.nan_value, dtype=object)
+                else:
+                    values = np.ones_like(self.values) * self.nan_value
                 values[mask] = self.values[mask]
+                if values.dtype == object:
+                    values = values.astype(str)
 
                 kwargs.update({"values": values})
 
